@@ -101,7 +101,8 @@ let run_master_engine (s : script) : string list =
       | MT.OStep -> incr opno; Printf.sprintf "op %d" !opno
       | MT.OPv v -> "pv " ^ verdict_text v
       | MT.ORxNoConn -> "rx no_connection"
-      | MT.OTx (d, b) -> Printf.sprintf "tx %d %s" (int_of_n d) (hex b)
+      | MT.OTxReq (d, q, fc, objs) -> Printf.sprintf "tx %d %s" (int_of_n d) (hex (MT.request_bytes q fc objs))
+      | MT.OTxConfirm (d, uns, q) -> Printf.sprintf "tx %d %s" (int_of_n d) (hex (MT.confirm_bytes uns q))
       | MT.OTxLinkStatus -> "tx-link-status-request"
       | MT.OCbBegin (rt, h) -> Printf.sprintf "cb begin %s %s" (rt_text rt) (hex h)
       | MT.OCbItem it -> "cb " ^ string_of_chars it
